@@ -363,6 +363,21 @@ def run(ctx):
                     nm = mir.norm_path(t[1]).rsplit("::", 1)[-1]
                     lit = const_bytes(call_args(t)[1]) if len(call_args(t)) > 1 else None
                     tests.setdefault((nm, lit), c.bb)
+        # `line.first()` compared with b'#' (or line[0] == b'#' after an emptiness test) is the same beginning-of-line test
+        for p in lps:
+            for c in p.conds():
+                ae = asserts_eq_const(c)
+                if ae is None or ae[1] != 35:
+                    continue
+                x = deval(ae[0])
+                src = None
+                if isinstance(x, tuple) and len(x) > 2 and x[0] == "field" and x[2] == 0 and isinstance(x[1], tuple) and x[1][0] == "downcast" and x[1][2] == "Some" and is_call(strip_refs(x[1][1]), "[T]>::first"):
+                    src = call_args(strip_refs(x[1][1]))[0]
+                elif isinstance(x, tuple) and x and x[0] == "index" and const_int(x[2]) == 0:
+                    src = x[1]
+                if src is not None and whole_line(src):
+                    tests.setdefault(("starts_with", "#"), c.bb)
+        tests = {k: v for k, v in tests.items() if k[0] != "first"}
         extra = sorted((k for k in tests if not ((k[0] == "starts_with" and k[1]) or k == ("is_empty", None))), key=str)
         ctx.check(not extra and ("starts_with", "#") in tests, "D5-LINE-TESTS", LFB, "whole-line-predicates", "a line is classified by its beginning only (%s)" % sorted(tests),
                   "a whole line is tested with %s: only a test of how the line begins (`starts_with(b\"#\")`, `starts_with(b\"$NetBSD: \")`) or `is_empty()` may classify a line as a whole" % (extra or "no comment test at all"),
